@@ -198,7 +198,7 @@ def class_keywords(H, cl):
 
 SCALARS = [("zero", "0"), ("neg1", "-1"), ("one", "1"), ("two", "2"), ("i32max", "2147483647"),
            ("i32max1", "2147483648"), ("i64max", "9223372036854775807"),
-           ("2p61", "2305843009213693952"), ("2p32", "4294967296"), ("1e30", "1e30"), ("1e308", "1e308"),
+           ("2p61", "2305843009213693952"), ("2p32", "4294967296"), ("1e30", "1e30"), ("1e308", "1e308"), ("1em5", "1e-5"),
            ("nan", "nan"), ("inf", "inf"), ("neginf", "-inf")]
 P0_SCALARS = ("zero", "neg1", "i32max", "1e308")
 NUM_RE = re.compile(r"(?<![A-Za-z0-9_.])[-+]?(?:\d+\.?\d*|\.\d+)(?:[eE][-+]?\d+)?(?![A-Za-z0-9_.])")
@@ -355,6 +355,11 @@ EXTRA_FAMILIES = [
     ("hist2d_wide", "colvar {\n  name d1\n  width 0.001\n  lowerBoundary 0.0\n  upperBoundary 100.0\n  distance {\n    group1 { atomNumbers 1 }\n    group2 { atomNumbers 2 }\n  }\n}\n"
                     "colvar {\n  name d2\n  width 1.0\n  lowerBoundary 0.0\n  upperBoundary 10.0\n  distance {\n    group1 { atomNumbers 3 }\n    group2 { atomNumbers 4 }\n  }\n}\n"
                     "histogram {\n colvars d1 d2\n}\n", "off"),
+    # a two-dimensional metadynamics grid of which only one dimension expands at run time (the variable starts far outside its
+    # boundaries): an absurdly small width makes the expanded dimension acceptable on its own but not its product with the fixed one
+    ("meta2d_expand", "colvar {\n  name d1\n  width 0.01\n  lowerBoundary 40.0\n  upperBoundary 40.01\n  expandBoundaries on\n  distance {\n    group1 { atomNumbers 1 }\n    group2 { atomNumbers 2 }\n  }\n}\n"
+                      "colvar {\n  name d2\n  width 0.05\n  lowerBoundary 0.0\n  upperBoundary 20.0\n  distance {\n    group1 { atomNumbers 3 }\n    group2 { atomNumbers 4 }\n  }\n}\n"
+                      "metadynamics {\n colvars d2 d1\n hillWeight 0.5\n newHillFrequency 2\n hillWidth 2.0\n}\n", "off"),
     ("alb", ctl.cv_d1() + "alb {\n colvars d1\n centers 4.0\n updateFrequency 4\n forceRange 1.0\n rateMax 0.5\n}\n", "off"),
     ("histrest", "colvar {\n  name hv\n  distancePairs {\n    group1 { atomNumbers 1 3 }\n    group2 { atomNumbers 2 4 }\n  }\n}\n"
                  "histogramRestraint {\n colvars hv\n lowerBoundary 0.0\n upperBoundary 40.0\n width 5.0\n gaussianSigma 2.0\n"
@@ -367,6 +372,9 @@ EXTRA_FAMILIES = [
     ("opes_misc", ctl.cv_d1() + "opes_metad {\n colvars d1\n newHillFrequency 2\n barrier 5.0\n gaussianSigma 0.3\n"
                   " adaptiveSigma off\n pmf on\n pmfColvars d1\n pmfHistoryFrequency 4\n outputFreq 2\n printTrajectoryFrequency 1\n}\n", "off"),
 ]
+
+# (template, substitution label): see select_cases
+PINNED = [("bias:meta2d_expand", r"^colvar\.width=1em5$"), ("bias:hist2d_wide", r"^colvar\.upperBoundary=i32max$")]
 
 XL = "  extendedLagrangian on\n  extendedFluctuation 0.25\n  extendedTimeConstant 50\n"
 CVOPT_TEMPLATES = [
@@ -940,6 +948,11 @@ def select_cases(c, H, templates, tier):
         p0 = [(ti, m) for ti, m in p0 + p1 if pat.search(templates[ti]["name"] + "|" + mut_label(m))]
         p1 = []
     room = budget - npairs
+    # substitutions a template was written for: always part of the sample, in both tiers
+    pinned = [(ti, m) for ti, m in p0 + p1 if any(templates[ti]["name"] == n and re.search(pat_, mut_label(m)) and m["op"] != "add"
+                                                   for n, pat_ in PINNED)]
+    c.extra["pinned_substitutions"] = len(pinned)
+    room -= len(pinned)
     if len(p0) > room:
         # stratified: every (object type, keyword, class) once, then random fill
         rng.shuffle(p0)
@@ -957,7 +970,7 @@ def select_cases(c, H, templates, tier):
         k = min(len(p1), room - len(sel))
         sel += rng.sample(p1, k)
     cases = []
-    for ti, m in sel:
+    for ti, m in pinned + [tm for tm in sel if not any(tm[0] == p[0] and tm[1] is p[1] for p in pinned)]:
         cases.append(dict(t=ti, muts=[m]))
     if not os.environ.get("C10_ONLY"):
         for _ in range(npairs):
